@@ -19,6 +19,8 @@ type Outcome struct {
 	Lines          []string
 	ReplaysOK      int
 	ReplaysTried   int
+	PathSamplesOK  int
+	PathSamplesSkipped int
 	Confirmed      []interp.Violation
 	Unconfirmed    []interp.Violation
 	MissingMarkers []string
@@ -187,6 +189,30 @@ func Finish(l *Loaded, rep *Report, names []string, opt Options, noReplay bool) 
 					out.Inconclusive = append(out.Inconclusive, "replay: "+err.Error())
 					break
 				}
+				if w.ID == "\x00path" {
+					// a completed path on which every assertion was discharged: natively it must run to the end
+					if rr.Done && rr.Failed == "" && !rr.Panicked && !rr.Mismatch {
+						out.ReplaysOK++
+						out.PathSamplesOK++
+					} else if rr.Failed == "" && !rr.Panicked && (rr.Mismatch || rr.TapeEnd) {
+						// the tape cannot be followed natively (e.g. a harness assumption mentions a capacity the
+						// runtime chose differently): says nothing about the discharged assertions
+						out.PathSamplesSkipped++
+					} else {
+						dir := filepath.Join(VerifDir, "replays", prop, "mismatch-"+n+"-pathsample")
+						os.MkdirAll(dir, 0o755)
+						tb, _ := json.MarshalIndent(w.Tape, "", " ")
+						os.WriteFile(filepath.Join(dir, "tape.json"), tb, 0o644)
+						mb, _ := json.Marshal(map[string]string{"harness": n, "what": "path sample", "kind": "reach", "tier": opt.Tier, "property": prop})
+						os.WriteFile(filepath.Join(dir, "meta.json"), mb, 0o644)
+						tail := rr.Output
+						if len(tail) > 1200 {
+							tail = tail[len(tail)-1200:]
+						}
+						out.Inconclusive = append(out.Inconclusive, fmt.Sprintf("ENGINE-MISMATCH %s: a path on which every assertion was discharged does not run clean natively (tape in %s):\n%s", n, dir, tail))
+					}
+					continue
+				}
 				if rr.Reached[w.ID] && !rr.Mismatch {
 					out.ReplaysOK++
 					rep.Stats[n].WitReplayed++
@@ -314,6 +340,8 @@ func WriteEvidence(l *Loaded, rep *Report, out *Outcome, opt Options) error {
 			"load_s":                        out.LoadS,
 			"replay_build_s":                out.ReplayBuildS,
 			"native_replays_tried":          out.ReplaysTried,
+			"passing_paths_replayed_natively": out.PathSamplesOK,
+			"passing_path_samples_not_realisable_natively": out.PathSamplesSkipped,
 			"functions_encoded":             fnList,
 			"repo_files_sha256_prefix":      files,
 			"files_substituted":             l.Subst,
